@@ -49,6 +49,10 @@ ALL_TYPES = list(TYPE_VALUES)
 _P16 = "s3://bucket/ev/p"          # 16 characters shared by all values: the order is decided beyond any 16-character prefix
 SCHEMA_TYPE = {"longstring": "string"}
 TYPE_VALUES["longstring"] = [_P16, _P16 + " ", _P16 + "10", _P16 + "9", _P16 + "A", _P16 + "a", _P16 + "\u00e9", _P16 + "\u4e2d", _P16 + "\U0001F600"]
+# ... and a second family sharing a 300-character prefix: a cap at any usual width (16/32/64/128/256) cuts the upper bound below real values
+_P300 = "datashard-verif-" * 19
+SCHEMA_TYPE["verylongstring"] = "string"
+TYPE_VALUES["verylongstring"] = [_P300[:300] + x[len(_P16):] for x in TYPE_VALUES["longstring"]]
 
 
 def conc(t: str, a: int) -> Any:
